@@ -20,7 +20,7 @@ impl Monitor for C13 {
         // bonds go to registered validators only (checked on every transaction that delegates)
         if c.res.ok() {
             if let Some(tr) = c.res.trace() {
-                let reg: Vec<&String> = pre.registry.iter().map(|x| &x.0).collect();
+                let reg: Vec<&String> = registered(pre);
                 for e in tr.evs() {
                     if let Ev::Delegate { delegator, validator, .. } = e {
                         if delegator == HUB {
@@ -87,10 +87,10 @@ impl Monitor for C13 {
             return;
         }
         out.count("c13.removals_ok");
-        if post.registry.iter().any(|x| &x.0 == v) {
+        if post.registry.iter().any(|x| &x.0 == v) || registered(post).iter().any(|x| *x == v) {
             out.violation(P, "taken_out_of_registry", format!("{} still registered after a successful removal", v));
         }
-        if post.registry.is_empty() {
+        if post.registry.is_empty() || registered(post).is_empty() {
             out.violation(P, "never_empty", "the registry is empty after a removal".into());
         }
         let d0 = pre.delegations.get(v).cloned().unwrap_or(0);
@@ -126,7 +126,7 @@ impl Monitor for C13 {
             if total != d0 || red.iter().any(|x| x.0 != v) {
                 out.violation(P, "redelegates_whole_stake", format!("hub had {} on {} but redelegations are {:?}", d0, v, red));
             }
-            let reg: Vec<&String> = post.registry.iter().map(|x| &x.0).collect();
+            let reg: Vec<&String> = registered(post);
             for (_, dst, _) in red.iter() {
                 if !reg.contains(dst) {
                     out.violation(P, "targets_registered", format!("redelegation target {} is not registered", dst));
@@ -150,5 +150,14 @@ impl Monitor for C13 {
             out.count("c13.removals_without_stake");
             out.distinct(&("remove_empty", pre.registry.len()));
         }
+    }
+}
+
+/// The registered validators: the stored set when the raw decoder recognises the registry's layout (so that a query
+/// that lists more than is stored cannot vouch for its own extras), otherwise the query's answer.
+fn registered(s: &crate::snap::Snap) -> Vec<&String> {
+    match &s.raw_registry {
+        Some(raw) if !(raw.is_empty() && !s.registry.is_empty()) => raw.iter().collect(),
+        _ => s.registry.iter().map(|x| &x.0).collect(),
     }
 }
